@@ -104,7 +104,8 @@ DtFields gen_dt(vf::Src& s) {
 	case 3: f.y = static_cast<i128>(s.draw(3000)); break;
 	case 4: f.y = static_cast<i128>(s.draw(400000000000ULL)); f.ysign = s.coin() ? "+" : "-"; break;
 	case 5: f.y = 1900 + static_cast<i128>(s.draw(400)); { static const char* sg[] = { "", "+-", "-+", "--", "++", " ", "+ " }; f.ysign = sg[s.draw(7)]; } break;
-	case 6: { f.y = static_cast<i128>(s.draw(0)); if (s.coin()) f.y = f.y * 1000 + 7; f.ysign = s.coin() ? "+" : "-"; break; }   // up to and beyond 2^64
+	case 6: if (s.chance(1, 4)) { const i128 lim = static_cast<i128>(1) << 63; static const long off[] = { 0, 1, 2, 398, 399, 400, 401, 1000 }; f.y = lim - off[s.draw(8)] + (s.chance(1, 8) ? 1 : 0); f.ysign = s.chance(3, 4) ? "-" : "+"; break; }   // the ends of the 64-bit year range (KF-62)
+		{ f.y = static_cast<i128>(s.draw(0)); if (s.coin()) f.y = f.y * 1000 + 7; f.ysign = s.coin() ? "+" : "-"; break; }   // up to and beyond 2^64
 	default: f.y = 1600 + static_cast<i128>(s.draw(800)); break;
 	}
 	f.ydigits = s.chance(1, 10) ? 1 + static_cast<int>(s.draw(6)) : 4;
